@@ -20,6 +20,8 @@ func init() {
 			c.run("C10-R7", "WHO-CALLS: the stop error travels unwrapped from the stop check to the reporter", c10R7)
 			c.run("C10-R9", "MUST-PASS/GUARD-DOM: Ctrl-C reaches the stop question; its answers map to their actions", c10R9)
 			c.run("C10-R10", "LAUNCH: the stop question and the signal waiters are started with go", c10Launch)
+			c.run("C10-R11", "GUARD-DOM: chunk times that feed the stop's clean-up wait are not recorded for chunks acknowledged across a pause", c10ChunkTimes)
+			c.run("C10-S1", "shared with C07-R4: a directory is created — and so recorded for stop-and-delete — only when it did not exist", c07R4)
 			c.run("C10-R8", "MUST-PASS/WHO-CALLS: SIGINT/SIGTERM on the server reach the stop entry point", c10R8)
 			c.run("C10-S", "shared with C02: success only after the digest compare and the saved==size gate", func(c *Ctx) { c02Digest(c); c02SavedSize(c) })
 		})
@@ -232,6 +234,53 @@ func c10R3(c *Ctx) {
 		})
 		c.check(hit == nil, "checkStopAndPause/loop-rechecks-stop", c.ipos(ci), "each pause-loop iteration re-checks stop", "the pause loop can spin without checking stop", c.pathStr(path)...)
 	}
+	// the same for every loop in the package that waits on the pause flag (the stop does not clear that flag: a pause loop
+	// that does not look at the stop spins for ever after stop-during-pause): from the flag's true edge, the flag is not
+	// read again without a stop check whose error leaves the function
+	nPL := 0
+	for _, pf := range c.AllFns {
+		for _, b := range pf.Blocks {
+			i := blockIf(b)
+			if i == nil {
+				continue
+			}
+			nf := normFact(fact{V: i.Cond, Pol: true})
+			call, _ := callOf(nf.V)
+			if call == nil || !isAtomicOnField(call, "pausing", "Load") {
+				continue
+			}
+			k := 0
+			if !nf.Pol {
+				k = 1
+			}
+			// is it a loop: the load is reachable again from the true edge
+			again, _ := reachFrom(b.Succs[k], 0, func(x ssa.Instruction) bool { return x == ssa.Instruction(call) }, nil)
+			if again == nil {
+				continue
+			}
+			nPL++
+			hit, path := reachFrom(b.Succs[k], 0, func(x ssa.Instruction) bool { return x == ssa.Instruction(call) }, func(x ssa.Instruction) bool {
+				c2, ok := x.(*ssa.Call)
+				if !ok || calleeID(&c2.Call) != tT+"checkStop" {
+					return false
+				}
+				u := classifyErrUse(c2)
+				if len(u.tests) == 0 {
+					return false
+				}
+				for _, t := range u.tests {
+					if okE, _ := failEdge(c, t.Block(), nonNilEdge(t)); !okE {
+						return false
+					}
+				}
+				return true
+			})
+			c.check(hit == nil, "pause-loop/"+c.fnName(pf)+"/rechecks-stop", c.ipos(i), "each round of the pause wait checks for a stop and leaves with its error", "a wait on the pause flag can go round without checking for a stop (a stop during a pause is never seen: the wait spins for ever)", c.pathStr(path)...)
+		}
+	}
+	if nPL < 2 {
+		c.undecided("pause-loop/sites", "fewer waits on the pause flag than expected")
+	}
 	okTail := true
 	nret := 0
 	eachInstr(g, func(in ssa.Instruction) {
@@ -409,6 +458,37 @@ func c10R4(c *Ctx) {
 			good = len(factCalls(fs, "(*trzsz.trzszError).isStopAndDelete", true)) > 0
 		}
 		c.check(good, "delete/"+caller, c.ipos(cs.Instr), "deletion only on the stop-and-delete edge", "created files can be deleted without a stop-and-delete")
+	}
+	// and the converse, universally: when the stop asks for deletion, no exit of the reporter avoids the delete
+	{
+		isCallTo := func(id string) func(ssa.Value) bool {
+			return func(v ssa.Value) bool { call, _ := callOf(v); return call != nil && calleeID(&call.Call) == id }
+		}
+		okT := func(v ssa.Value) bool {
+			e, isE := v.(*ssa.Extract)
+			if !isE || e.Index != 1 {
+				return false
+			}
+			_, ta := e.Tuple.(*ssa.TypeAssert)
+			return ta
+		}
+		isDel := func(in ssa.Instruction) bool {
+			ci, ok := in.(ssa.CallInstruction)
+			return ok && ci.Common().StaticCallee() == del
+		}
+		se := c.fn("trzszTransfer.serverError")
+		hit, path := reachFromE(se.Blocks[0], 0, isReturn, isDel, contradicts([]assumption{{pred: okT, val: true}, {pred: isCallTo("(*trzsz.trzszError).isStopAndDelete"), val: true}}))
+		c.check(hit == nil, "delete-always/trzszTransfer.serverError", c.pos(se.Pos()), "a peer's stop-and-delete always reaches the delete", "the server can finish reporting a peer's stop-and-delete without deleting what it created (the half-written files stay)", c.pathStr(path)...)
+		ce := c.fn("trzszTransfer.clientError")
+		hit, path = reachFromE(ce.Blocks[0], 0, isReturn, isDel, contradicts([]assumption{
+			{pred: func(v ssa.Value) bool {
+				call, _ := callOf(v)
+				return call != nil && isAtomicOnField(call, "stopAndDelete", "Load")
+			}, val: true},
+			{pred: isCallTo("(*trzsz.trzszError).isRemoteExit"), val: false},
+			{pred: isCallTo("(*trzsz.trzszError).isRemoteFail"), val: false},
+		}))
+		c.check(hit == nil, "delete-always/trzszTransfer.clientError", c.pos(ce.Pos()), "the user's stop-and-delete always reaches the delete", "the client can finish reporting the user's stop-and-delete without deleting what it created", c.pathStr(path)...)
 	}
 }
 
@@ -897,4 +977,61 @@ func c10R9(c *Ctx) {
 		}
 	}
 	c.check(good, "StopTransferringFiles/forwards", c.pos(api.Pos()), "the public stop call forwards its flavour to the active transfer", "the public stop call does not stop the active transfer with the requested flavour")
+}
+
+// c10ChunkTimes: how long the stop's clean-up waits for the line to go quiet is derived from the recorded chunk
+// times (stopTransferringFiles: twice the largest, at least 500 ms). A chunk acknowledged across a pause took as
+// long as the user looked at the stop question; recording it makes a later stop wait twice that long. In the ack
+// stage the recording therefore sits with the statistics that the pause suspends: under "the post-pause countdown
+// is still running and the size probing is over" no recording is reachable.
+func c10ChunkTimes(c *Ctx) {
+	af := c.fn("trzszTransfer.pipelineRecvAck$1")
+	// the countdown, by role: an integer variable (phi) that is decremented by one somewhere in the stage
+	isCountdown := func(v ssa.Value) bool {
+		p, ok := v.(*ssa.Phi)
+		if !ok {
+			return false
+		}
+		for _, r := range referrersOf(p) {
+			if b, isB := r.(*ssa.BinOp); isB && b.Op == token.SUB && b.X == ssa.Value(p) && isConstIntV(1)(b.Y) {
+				return true
+			}
+		}
+		return false
+	}
+	isPhase := func(v ssa.Value) bool {
+		call, _ := callOf(v)
+		return call != nil && isAtomicOnField(call, "bufInitPhase", "Load")
+	}
+	found := false
+	eachInstr(af, func(in ssa.Instruction) {
+		if p, ok := in.(*ssa.Phi); ok && isCountdown(p) {
+			found = true
+		}
+	})
+	if !found {
+		c.undecided("pipelineRecvAck/post-pause-countdown", "the countdown that suspends the statistics after a pause was not found")
+		return
+	}
+	reach := blocksUnder(af, []assumption{valueIs(isCountdown, 5), {pred: isPhase, val: false}})
+	n := 0
+	for _, ci := range callsIn(af, anyID) {
+		g := ci.Common().StaticCallee()
+		if g == nil {
+			continue
+		}
+		records := calleeID(ci.Common()) == tT+"setLastChunkTime"
+		if !records && c.inPkg(g) && len(g.Blocks) > 0 {
+			// one level of helper
+			records = len(callsIn(g, idIs(tT+"setLastChunkTime"))) > 0
+		}
+		if !records {
+			continue
+		}
+		n++
+		c.check(!reach[ci.Block()], "pipelineRecvAck/no-chunk-time-across-a-pause", c.ipos(ci), "chunk times are recorded only where the post-pause countdown has run out (or the size is still being probed)", "the time of a chunk acknowledged across a pause is recorded: the next stop waits twice the length of that pause before it tells the peer")
+	}
+	if n == 0 {
+		c.undecided("pipelineRecvAck/no-chunk-time-across-a-pause", "the ack stage records no chunk time")
+	}
 }
